@@ -265,8 +265,13 @@ func c09CLI(c *fw.Ctx) fw.Outcome {
 
 func simpleSRT(cs []tcue) string {
 	var b []byte
+	// position data behind the end time, set off by a blank, a tab or both (a function of the list)
+	coords := ""
+	if n := len(cs); n > 0 {
+		coords = []string{"", "", " X1:100 X2:200 Y1:050 Y2:100", "\tX1:100 X2:200 Y1:050 Y2:100", " \t X1:100 X2:200 Y1:050 Y2:100"}[(int(cs[0].E/1e6)+n)%5]
+	}
 	for k, c := range cs {
-		b = append(b, fmt.Sprintf("%d\n%s --> %s\n%s\n\n", k+1, srtTime(c.S), srtTime(c.E), c.T)...)
+		b = append(b, fmt.Sprintf("%d\n%s --> %s%s\n%s\n\n", k+1, srtTime(c.S), srtTime(c.E), coords, c.T)...)
 	}
 	// the file ends with one to four blank lines, the last of them possibly not terminated (a function of the list)
 	if n := len(cs); n > 0 {
